@@ -58,6 +58,7 @@ def new_ctx(prog, **kw):
     intrinsics.install(ctx)
     ctx.globals_init['os.Stdout'] = gobmc.Ptr('STDOUT')
     ctx.globals_init['os.Stdin'] = gobmc.Ptr('STDIN')
+    ctx.globals_init['io.EOF'] = intrinsics.EOF_ERR
     ctx.globals_init['io/fs.SkipDir'] = gobmc.IfaceV('error:skipdir', s_const('skip this directory'))
     ctx.globals_init['io/fs.SkipAll'] = gobmc.IfaceV('error:skipall', s_const('skip everything and stop the walk'))
     intrinsics.register_harness_api(ctx, [MOD + '/' + p for p in HARNESS_PKGS])
@@ -97,6 +98,19 @@ def run_inits(ex, heap, pkgs):
 
 class Result(dict):
     pass
+
+
+_ACTIVE = None
+
+
+def active_known():
+    global _ACTIVE
+    if _ACTIVE is None:
+        try:
+            _ACTIVE = {f['id'] for f in json.load(open(os.path.join(ROOT, 'known_findings.json'))).get('findings', [])}
+        except OSError:
+            _ACTIVE = set()
+    return _ACTIVE
 
 
 def model_values(ctx, model):
@@ -275,7 +289,8 @@ def run_harness(ssa_path, fname, params=None, fixlen=None, unwind=10, unwind_by_
     groups = {}
     for ob in hard:
         sg = exclude(ctx, ob) if exclude else {}
-        sg = {k: v for k, v in sg.items() if v is not False}
+        # only findings still listed in known_findings.json are excluded; a finding moved to "fixed" suppresses nothing
+        sg = {k: v for k, v in sg.items() if v is not False and k in active_known()}
         groups.setdefault(tuple(sorted(sg)), ([], sg))[0].append(ob)
     for key, (grp, sg) in groups.items():
         batch(grp, sg)
